@@ -66,6 +66,8 @@ def instances(tier):
     shapes.append(((3,), ((False,) * 3, (False,) * 3), ((False,) * 3, (False, True, False))))
     # special values: a bin with zero errors on both sides and different values (t = -inf), an infinite and a NaN value
     shapes.append(((4,), ((False, 'zeroerr', False, False),), ((False, 'inf', 'nan', True),)))
+    # a reference without errors (deterministic calculation) and an empty bin (0 error, same value) on the compared side
+    shapes.append(((3,), ((False, 'exactref', False),), ((True, 'exactref', 'exactref'),)))
     if tier == 'thorough':
         shapes.append(((1, 3, 1), ((False,) * 3,), ((True, False, True),)))
         shapes.append(((2, 2), ((False, 'zeroerr', False, False), (False,) * 4), (('nan', False, 'inf', False), (True,) * 4)))
@@ -93,6 +95,14 @@ def make(inst):
     if kind in kit.DATASET_KINDS:
         return kit.build(kind, shape=shape, patterns=patterns, storage=inst[4] if len(inst) > 4 else None)
     return kit.build(kind, extra=extra)
+
+
+def make_unevaluated(inst):
+    """The test object as built, never evaluated (dataset kinds only: the others have no datasets to protect)."""
+    kind, shape, patterns = inst[:3]
+    if kind not in kit.DATASET_KINDS:
+        return None
+    return kit.build(kind, shape=shape, patterns=patterns, storage=inst[4] if len(inst) > 4 else None, evaluate=False)[0]
 
 
 def operations():
@@ -153,10 +163,16 @@ def job(inst):
     # determinism of evaluate()
     test, _ = make(inst)
     if inst[0] != 'failed':
-        one, two = state_of(test.evaluate()), state_of(test.evaluate())
+        fresh = strip_private(deepsnap(make_unevaluated(inst)))
+        one = state_of(test.evaluate())
+        after = strip_private(deepsnap(test))
+        two = state_of(test.evaluate())
         rep.evaluations += 1
         if one != two:
             rep.violate(f'C13|evaluate-not-repeatable|{inst[0]}', f'two evaluations differ: {diff(one, two)}', {'instance': inst})
+        if fresh is not None and after != fresh:
+            rep.violate(f'C13|evaluate-changes-inputs|{inst[0]}', f'the test and its datasets differ after evaluate(): {diff(after, fresh)}',
+                        {'instance': inst})
     tag = f'{inst[0]}|verdict={verdict0}' + (f'|{inst[4]}' if len(inst) > 4 else '')
 
     def run_seq(hist):
